@@ -12,14 +12,20 @@
 // exact terms has relative error <= 3*2^-113 and sqrtq adds <= 2^-112: the reference norm is good to
 // ~2^-110 relative, i.e. < 2^-57 ulp of double.  No cancellation occurs (all terms >= 0).
 //
+// Domain: since /repo 16a5ca8 length() also takes the scaled branch when the sum of squares OVERFLOWS, so vectors
+// whose squared length overflows but whose length is representable are inside what length()/normalize must
+// handle: components up to max/2 (then ||v|| <= sqrt(4)*max/2 = max for N <= 4).  Vectors whose length itself
+// exceeds max stay excluded (none is generated; a reference norm > max is skipped and counted).
+//
 // Inputs (mode "sweep"): for T in {float,double}, N in {2,3,4}: EVERY binary exponent from the smallest
-// subnormal up to the largest with |x| <= sqrt(max)/2, x mantissa patterns {1.0, 1.5, 1+ulp, 2-ulp, random...}
+// subnormal up to the largest with |x| <= max/2, x mantissa patterns {1.0, 1.5, 1+ulp, 2-ulp, random...}
 // x structures {single non-zero component at each position with signed zeros elsewhere, all equal (random
 // signs), mixed magnitudes with exponent gaps {0,1,2,p/2,p-1,p,p+1,2p,random up to the full range}, signed
 // zeros mixed with two non-zero components}, plus vectors scaled so that dot() lands just below / at / just
-// above the 2*min threshold of length(), plus all-zero vectors with every sign pattern.
-// Mode "lattice": small integer vectors [-3,3]^N at three scales (direct branch / lengthTiny branch /
-// subnormal), used by the failing-input search of the theorems.
+// above the 2*min threshold of length(), around norm = min, and just below / at / just above dot = max (the
+// overflow guard), plus all-zero vectors with every sign pattern.
+// Mode "lattice": small integer vectors [-3,3]^N at four scales (direct branch / lengthTiny branch for
+// underflow / subnormal / lengthTiny branch for overflowing squares), used by the failing-input search.
 //
 // Output: one "RESIDUE ..." summary line, "CLASS ..." lines (per type x dimension x class maxima and counts)
 // and "RESIDUE-FAIL <fn> <type> <what> ..." lines with the offending input as hex floats.
@@ -47,27 +53,29 @@ static std::string     fnFilter; // lattice mode: only report failures of this f
 // tools/props/c08.py; the measured maxima are reported in the evidence on every run.
 //   length():  class A = lengthTiny branch, subnormal norm      class B = lengthTiny branch, normal norm
 //              class C = direct branch, dot < 2^10 * 2*min      class D = direct branch, the rest
-// Clean-tree maxima (seeds 1-3, sweep with 2 and 24 random mantissas per exponent, 2026-09):
-//   length A 1.37  B 2.65  C 1.85  D 1.51 ulps;  unit 1.71 eps;  ratio 3.80 u.
+//              class E = lengthTiny branch because the squares overflow (dot > max): same bound as class B
+// Clean-tree maxima (seeds 1-3, sweep with 2 and 24 random mantissas per exponent; re-calibrated on /repo 16a5ca8):
+//   length A 1.44  B 2.65  C 2.15  D 1.58  E 2.75 ulps;  unit 1.71 eps;  ratio 3.87 u.
 #ifndef LENGTH_BOUND_A
-#define LENGTH_BOUND_A 2.4
+#define LENGTH_BOUND_A 2.5
 #define LENGTH_BOUND_B 3.7
-#define LENGTH_BOUND_C 2.9
+#define LENGTH_BOUND_C 3.2
 #define LENGTH_BOUND_D 2.6
 #define UNIT_BOUND_V 2.8
-#define RATIO_BOUND_V 4.8
+#define RATIO_BOUND_V 4.9
 #endif
-static const double LENGTH_BOUND[4] = {LENGTH_BOUND_A, LENGTH_BOUND_B, LENGTH_BOUND_C, LENGTH_BOUND_D};
+static const double LENGTH_BOUND[5] = {LENGTH_BOUND_A, LENGTH_BOUND_B, LENGTH_BOUND_C, LENGTH_BOUND_D, LENGTH_BOUND_B};
 static const double UNIT_BOUND      = UNIT_BOUND_V;  // | ||r|| - 1 | in units of epsilon, normal norms only
 static const double RATIO_BOUND     = RATIO_BOUND_V; // |r_i*||v|| - v_i| in units of u*|v_i| (+ 1 denormal step of r_i)
-static const char*  CLASSNAME[4]    = {"tiny-branch/subnormal-norm", "tiny-branch/normal-norm", "direct/near-threshold", "direct"};
+static const char*  CLASSNAME[5]    = {"tiny-branch/subnormal-norm", "tiny-branch/normal-norm", "direct/near-threshold", "direct", "scaled-branch/squares-overflow"};
+static long         skippedNormAboveMax = 0;
 
 template <class T> struct Lim
 {
     static constexpr int p = std::numeric_limits<T>::digits;
     static int eminNormal () { return std::numeric_limits<T>::min_exponent - 1; }             // -126 / -1022
     static int eminSub () { return eminNormal () - (p - 1); }                                   // -149 / -1074
-    static int emaxIn () { return std::numeric_limits<T>::max_exponent / 2 - 2; }             // 62 / 510: (2-ulp)*2^e <= sqrt(max)/2
+    static int emaxIn () { return std::numeric_limits<T>::max_exponent - 2; }                 // 126 / 1022: (2-ulp)*2^e <= max/2
     static const char* name () { return sizeof (T) == 4 ? "float" : "double"; }
 };
 template <class T> static Q ulpAt (Q ref)
@@ -154,12 +162,15 @@ template <class T, int N> static void checkVector (const typename VecOf<T, N>::t
     Q dotq, ref = normQ<T, N> (v, &dotq);
     const Q minN = ldexpq ((Q) 1, Lim<T>::eminNormal ());
     char    dim[8]; snprintf (dim, 8, "%d", N);
+    if (ref > (Q) std::numeric_limits<T>::max ()) { ++skippedNormAboveMax; return; } // length itself not representable: outside C08
 
     // ---- length() -------------------------------------------------------------------------------
     T    l      = v.length ();
     T    dotT   = v.dot (v);
     bool tinyBr = dotT < T (2) * std::numeric_limits<T>::min ();
-    int  cls    = tinyBr ? (ref < minN ? 0 : 1) : (dotq < ldexpq (minN, 11) ? 2 : 3);
+    bool ovfBr  = dotT > std::numeric_limits<T>::max ();
+    int  cls    = tinyBr ? (ref < minN ? 0 : 1) : ovfBr ? 4 : (dotq < ldexpq (minN, 11) ? 2 : 3);
+    const char* brName = tinyBr ? "tiny-branch" : ovfBr ? "scaled-overflow" : "direct";
     ++evals;
     if (isZero)
     {
@@ -187,8 +198,11 @@ template <class T, int N> static void checkVector (const typename VecOf<T, N>::t
         if (std::memcmp (&l2, &dotT, sizeof (T)) != 0) fail (FN (N, "length2"), ty, "differs-from-dot", in, "");
         Q u = ldexpq ((Q) 1, -Lim<T>::p), slack = (Q) N * ldexpq ((Q) 1, Lim<T>::eminSub ());
         Q e = fabsq ((Q) l2 - dotq);
-        double r = dotq > 0 ? (double) ((e > slack ? e - slack : 0) / (u * dotq)) : (double) (e > 0);
-        note (std::string ("length2_err_over_u|") + ty + "|" + dim + "|all", r, in);
+        bool   l2ovf = dotq > (Q) std::numeric_limits<T>::max () * (1 + (Q) N * u); // exact dot (nearly) overflows: inf is the correct result
+        double r = l2ovf ? 0 : dotq > 0 ? (double) ((e > slack ? e - slack : 0) / (u * dotq)) : (double) (e > 0);
+        if (!std::isfinite (l2) && !l2ovf && dotq <= (Q) std::numeric_limits<T>::max () * (1 - (Q) N * u)) r = 1e30;
+        else if (!std::isfinite (l2)) r = 0;
+        if (!l2ovf && std::isfinite (l2)) note (std::string ("length2_err_over_u|") + ty + "|" + dim + "|all", r, in);
         if (r > N) { char d[120]; snprintf (d, 120, "got=%a exact=%a err/u=%.3f", (double) l2, (double) dotq, r); fail (FN (N, "length2"), ty, "rounding", in, d); }
     }
     // ---- the six normalize forms ------------------------------------------------------------------
@@ -222,7 +236,7 @@ template <class T, int N> static void checkVector (const typename VecOf<T, N>::t
         // unit length
         Q      rn   = normQ<T, N> (r);
         double uerr = (double) (fabsq (rn - 1) / (Q) std::numeric_limits<T>::epsilon ());
-        note (std::string ("unit_err_eps|") + ty + "|" + dim + "|" + (tinyBr ? "tiny-branch" : "direct"), uerr, in);
+        note (std::string ("unit_err_eps|") + ty + "|" + dim + "|" + brName, uerr, in);
         if (uerr > UNIT_BOUND) { char d[160]; snprintf (d, 160, "|r|=1%+.3g err_eps=%.3f bound=%.1f out=", (double) (rn - 1), uerr, UNIT_BOUND); fail (fn, ty, "unit-length", in, d + show<T, N> (r)); }
         // ratio: r_i * ||v|| = v_i up to a few u (plus one denormal step when r_i is subnormal)
         Q u = ldexpq ((Q) 1, -Lim<T>::p);
@@ -232,7 +246,7 @@ template <class T, int N> static void checkVector (const typename VecOf<T, N>::t
             Q e     = fabsq ((Q) r[i] * ref - (Q) v[i]);
             Q slack = ldexpq (ref, Lim<T>::eminSub ()); // one denormal step of r_i, scaled
             double q = (double) ((e > slack ? e - slack : 0) / (u * fabsq ((Q) v[i])));
-            note (std::string ("ratio_err_u|") + ty + "|" + dim + "|" + (tinyBr ? "tiny-branch" : "direct"), q, in);
+            note (std::string ("ratio_err_u|") + ty + "|" + dim + "|" + brName, q, in);
             if (q > RATIO_BOUND) { char d[160]; snprintf (d, 160, "component=%d err_u=%.3f bound=%.1f out=", i, q, RATIO_BOUND); fail (fn, ty, "ratio", in, d + show<T, N> (r)); break; }
         }
     }
@@ -289,7 +303,7 @@ template <class T, int N> static void sweepExponent (int e, int reps)
                 if (i == pos) { v[i] = sgn (x); continue; }
                 int d = (rng () & 1) ? gaps[g] : (gaps[g] > 0 ? (int) (rng () % (unsigned) (gaps[g] + 1)) : 0);
                 v[i]  = sgn (val<T> (4, e - d));
-                if (std::fabs (v[i]) > std::fabs (x) && e == Lim<T>::emaxIn ()) v[i] = sgn (x); // stay within sqrt(max)/2
+                if (std::fabs (v[i]) > std::fabs (x) && e == Lim<T>::emaxIn ()) v[i] = sgn (x); // stay within max/2
             }
             checkVector<T, N> (v);
         }
@@ -307,14 +321,16 @@ template <class T, int N> static void sweepExponent (int e, int reps)
     }
 }
 
-// vectors whose dot() lands around the 2*min threshold of length(), and around min (norm^2 at the subnormal border)
+// vectors whose dot() lands around the 2*min threshold of length(), around min (norm^2 at the subnormal border),
+// and around max (the overflow guard: direct branch just below, scaled branch just above)
 template <class T, int N> static void sweepThreshold (int n)
 {
     typedef typename VecOf<T, N>::type V;
     const double factors[] = {0.25, 0.5, 0.9, 0.999, 1.0, 1.001, 1.1, 2.0, 4.0, 64.0};
-    const Q      targets[2] = {2 * (Q) std::numeric_limits<T>::min (), ldexpq ((Q) std::numeric_limits<T>::min (), Lim<T>::eminNormal ())}; // dot ~ 2*min ; norm ~ min
+    const Q      targets[3] = {2 * (Q) std::numeric_limits<T>::min (), ldexpq ((Q) std::numeric_limits<T>::min (), Lim<T>::eminNormal ()),
+                               (Q) std::numeric_limits<T>::max ()}; // dot ~ 2*min ; norm ~ min ; dot ~ max (overflow guard)
     for (int it = 0; it < n; ++it)
-        for (int tg = 0; tg < 2; ++tg)
+        for (int tg = 0; tg < 3; ++tg)
             for (double f : factors)
             {
                 Q   u[N], s = 0;
@@ -341,15 +357,16 @@ template <class T, int N> static void sweep (int reps, int stride)
     sweepThreshold<T, N> (40 * (reps + 1));
 }
 
-// integer lattice [-3,3]^N at three scales: direct branch (exact squares), lengthTiny branch, subnormal
+// integer lattice [-3,3]^N at four scales: direct branch (exact squares), lengthTiny branch (underflow), subnormal,
+// lengthTiny branch because the squares overflow
 template <class T, int N> static void lattice ()
 {
     typename VecOf<T, N>::type v;
-    const int scales[3] = {0, Lim<T>::eminNormal () / 2 - 8, Lim<T>::eminSub () + 4};
+    const int scales[4] = {0, Lim<T>::eminNormal () / 2 - 8, Lim<T>::eminSub () + 4, std::numeric_limits<T>::max_exponent / 2 + 6};
     int       idx[4]    = {0, 0, 0, 0};
     long      total     = 1;
     for (int i = 0; i < N; ++i) total *= 7;
-    for (int sc = 0; sc < 3; ++sc)
+    for (int sc = 0; sc < 4; ++sc)
         for (long c = 0; c < total; ++c)
         {
             long r = c;
@@ -379,6 +396,6 @@ int main (int argc, char** argv)
         sweep<double, 2> (reps, stride); sweep<double, 3> (reps, stride); sweep<double, 4> (reps, stride);
     }
     for (auto& kv : stats) printf ("CLASS %s max=%.4f n=%ld worst=%s\n", kv.first.c_str (), kv.second.maxv, kv.second.n, kv.second.worst.c_str ());
-    printf ("RESIDUE mode=%s seed=%lu vectors=%ld evals=%ld failures=%ld\n", mode.c_str (), seed, vectors, evals, failures);
+    printf ("RESIDUE mode=%s seed=%lu vectors=%ld evals=%ld failures=%ld skipped_norm_above_max=%ld\n", mode.c_str (), seed, vectors, evals, failures, skippedNormAboveMax);
     return failures ? 1 : 0;
 }
